@@ -383,11 +383,14 @@ func c11CallsInExpr(e *amlExpr, in string, callee map[string]string, out *[]c11C
 func c11CallsInStmts(l []amlStmt, in string, callee map[string]string, out *[]c11Call) {
 	for i := range l {
 		s := &l[i]
-		if s.K == "store" || s.K == "inc" {
+		switch s.K {
+		case "notify", "wait", "acquire":
+			// encoded as (target, expr)
+			c11CallsInExpr(s.T, in, callee, out)
+			c11CallsInExpr(s.E, in, callee, out)
+		default:
 			c11CallsInExpr(s.E, in, callee, out)
 			c11CallsInExpr(s.T, in, callee, out)
-		} else {
-			c11CallsInExpr(s.E, in, callee, out)
 		}
 		c11CallsInStmts(s.Body, in, callee, out)
 		c11CallsInStmts(s.Else, in, callee, out)
@@ -439,13 +442,27 @@ func c11CheckExpr(tree *ObjectTree, o *Object, e *amlExpr, paths map[uint32]stri
 				return err
 			}
 		}
-	case "binop", "cmp", "lnot":
+	case "binop", "cmp", "lnot", "unop", "term1", "index", "divide", "const0":
 		var op uint16
+		opOf := func(b []byte) uint16 {
+			if len(b) == 2 {
+				return 0xff + uint16(b[1])
+			}
+			return uint16(b[0])
+		}
 		switch e.K {
 		case "binop":
 			op = uint16(amlBinOps[e.Op])
 		case "cmp":
 			op = uint16(amlCmpOps[e.Op])
+		case "unop":
+			op = opOf(amlUnOps[e.Op])
+		case "term1", "const0":
+			op = opOf(amlTerm1Ops[e.Op])
+		case "index":
+			op = pOpIndex
+		case "divide":
+			op = pOpDivide
 		default:
 			op = pOpLnot
 		}
@@ -470,7 +487,7 @@ func c11CheckExpr(tree *ObjectTree, o *Object, e *amlExpr, paths map[uint32]stri
 
 type c11Stats struct {
 	scopeDirectives, relocated, callsWithArgs, forwardCalls, nestedCalls, nonMinimalPkg, deferred int
-	tables, hugePkg                                                                            int
+	tables, hugePkg, miscStmts, miscExprs                                                      int
 }
 
 func c11Run(c c11Case) (fail *vlib.Failure, errLog string) {
